@@ -367,9 +367,71 @@ fn run_huge_unit(ctx: &Ctx) -> Report {
     })
 }
 
+/// Arbitrary (non power-of-two) factors over long streams for the price-valued indicators: their
+/// legitimate re-rounding stays ~eps*sqrt(t)*M, far below 1e-9*M even at t = 3*10^5, whereas an
+/// accumulator that drifts does not commute with the rescaling.
+fn run_long_arbitrary(ctx: &Ctx) -> Report {
+    let steps = ctx.pick(300_000usize, 2_200_000usize);
+    let seed = ctx.seed;
+    let mut jobs = Vec::new();
+    for kind in [Kind::Sma, Kind::Wma, Kind::Ema, Kind::Mad, Kind::Sd, Kind::Bb, Kind::Atr, Kind::Macd, Kind::Min, Kind::Max] {
+        for n in [2usize, 3, 5, 9] {
+            jobs.push((kind, n));
+        }
+    }
+    par_run(jobs, ctx.threads, move |(kind, n), rep| {
+        let mut p = Params::new1(*kind, *n);
+        match kind {
+            Kind::Macd => p.p = [*n, *n + 4, 3],
+            Kind::Bb => p.k = 2.0,
+            _ => {}
+        }
+        let mut rng = Rng::derive(seed, 0xC14F, *kind as u64 * 100 + *n as u64);
+        let arb = *rng.pick(&[3.0, 0.1, 0.37, 7.25]);
+        // prices quoted in cents inside [10, 1000]
+        let mut g = BandGen::new(crate::gen::Regime::Walk, 10.0, rng.u64());
+        let (mut a, mut b) = (Inst::new(&p), Inst::new(&p));
+        let mut m: f64 = 0.0;
+        for t in 1..=steps {
+            let x = (g.next() * 100.0).round() / 100.0;
+            m = m.max(x);
+            let (oa, ob) = match (a.next_f64(x), b.next_f64(x * arb)) {
+                (Ok(u), Ok(v)) => (u, v),
+                _ => return,
+            };
+            if t % 101 != 0 && t > 2000 {
+                continue;
+            }
+            let (qa, qb) = (derive(*kind, &oa), derive(*kind, &ob));
+            for (j, (name, va, _ra, class)) in qa.iter().enumerate() {
+                let (_, vb, _rb, _) = qb[j];
+                rep.evaluations += 1;
+                let (err, tol) = match class {
+                    Class::DispSq => ((vb.sqr() - dd(arb).sqr() * va.sqr()).abs().to_f64(), 1e-9 * arb * arb * m * m),
+                    _ => ((vb - dd(arb) * *va).abs().to_f64(), 1e-9 * arb * m),
+                };
+                rep.ratio(&format!("c14.long_arbitrary.{}.{}", kind.name(), name), err / tol);
+                if !(err <= tol) {
+                    let sig = format!("{}/c14.scale_arbitrary_long.{}/mismatch", kind.name(), name);
+                    if rep.is_new_sig(&sig) {
+                        let detail = format!("{} {}: after {} inputs out(c*x)={:e} vs c*out(x)={:e} (c={}), |err| {:e} > {:e}", p.label(), name, t, vb.to_f64(), va.to_f64() * arb, arb, err, tol);
+                        rep.violation(sig.clone(), detail.clone(), crate::common::replay_rerun("C14", &sig, &detail, json!({"params": p.to_json(), "factor": arb, "step": t, "seed": seed.to_string()})));
+                    } else {
+                        rep.violation_again(&sig);
+                    }
+                    return;
+                }
+            }
+        }
+        rep.count("long_arbitrary_factor_streams");
+        rep.distinct_by_construction += 1;
+    })
+}
+
 pub fn run(ctx: &Ctx) -> Report {
     let mut rep = run_main(ctx);
     rep.merge(run_huge_unit(ctx));
+    rep.merge(run_long_arbitrary(ctx));
     rep
 }
 
